@@ -160,6 +160,29 @@ pub fn run(tier: Tier) -> i32 {
         for cut in 0..w.bytes.len() {
             mutants.push((format!("truncated to {} of {} bytes", cut, w.bytes.len()), w.bytes[..cut].to_vec()));
         }
+        // a chunk whose payload ends with an end marker before the declared uncompressed size is reached
+        // (produces fewer bytes than declared; the payload itself is complete and ends with code == 0)
+        for ci in 0..cs.len() {
+            if let Chunk::C { class, props, prog } = &cs[ci] {
+                if prog.len() > 400 {
+                    continue;
+                }
+                let mut cs2 = cs.clone();
+                let mut p2 = prog.clone();
+                p2.push(Sym::E);
+                cs2[ci] = Chunk::C { class: *class, props: *props, prog: p2 };
+                let w2 = lzma2::write(&cs2);
+                let l = &w2.layout[ci];
+                for extra in [1usize, 2, 30] {
+                    let nv = l.unpacked + extra - 1;
+                    let mut m = w2.bytes.clone();
+                    m[l.control_off] = (m[l.control_off] & 0xE0) | ((nv >> 16) & 0x1F) as u8;
+                    m[l.unpacked_off] = (nv >> 8) as u8;
+                    m[l.unpacked_off + 1] = nv as u8;
+                    mutants.push((format!("chunk {} ends with an end marker after {} bytes but declares {}", ci, l.unpacked, l.unpacked + extra), m));
+                }
+            }
+        }
         // illegal properties with a payload that is CONSISTENT with them (re-encoded by the reference encoder under
         // the illegal lc/lp), so that only the lc+lp rule itself can object - a decoder that lost the rule accepts these
         for ci in 0..cs.len() {
